@@ -41,6 +41,9 @@ type Rule struct {
 	// Style of the action text: 0 one assignment; 1 "$$ = K0; $$ = $$ + ..." (reads after
 	// the first write); 2 no assignment at all (the value must be the zero value).
 	Style int
+	// ActExtra: statements placed in the action after verifReduce (C10: action bodies
+	// with quotes, strings and nested blocks)
+	ActExtra string
 }
 
 type Spec struct {
@@ -167,6 +170,9 @@ func (s *Spec) Action(k int, ts bool) string {
 	r := s.Rules[k-1]
 	var sb strings.Builder
 	fmt.Fprintf(&sb, "{ verifReduce(%d)", k)
+	if r.ActExtra != "" {
+		sb.WriteString("; " + r.ActExtra)
+	}
 	if s.NTTag[r.Lhs] != "" && r.Style == 2 && ts {
 		// a TypeScript value has no zero default: the action states it
 		sb.WriteString("; $$ = 0")
@@ -296,13 +302,22 @@ var verifLog :number[] = [];
 var verifRequests = 0;
 var verifUseIdx = false;
 function verifReduce(k :number) { verifLog.push(k) }
+function verifInputText() :string {
+	let s = ""
+	let i = 0
+	while (i < verifTok.length) {
+		s = s + "x"
+		i = i + 1
+	}
+	return s
+}
 function GetToken(input :string, model:{ValType :ValType, pos :number}) :number {
 	verifRequests++
 	let i = model.pos
-	model.pos = i + 1
 	if (i >= verifTok.length) {
 		return -1
 	}
+	model.pos = i + 1
 	model.ValType = new ValType()
 	model.ValType.val = verifVal[i]
 	model.ValType.alt = verifVal[i] + 1000
@@ -543,6 +558,23 @@ func Fixed() []*Spec {
 				Rules: rules(lines...)})
 		}
 	}
+	// the alternatives of one nonterminal in two separate groups of the file
+	add(&Spec{Name: "split_groups", Tags: []string{"lalr1"},
+		Toks:  []Tok{litV('a'), litV('b'), litV('c')},
+		Rules: rules("S: X 'b'", "X: 'a'", "Y: 'c'", "X: Y", "S: S 'a'"),
+		NTTag: allVal("S", "X", "Y")})
+	// nullability three levels deep, written top-down (the fixpoint needs a third pass)
+	add(&Spec{Name: "nullable_chain3", Tags: []string{"lalr1", "nullable"},
+		Toks:  []Tok{named("AT", 350), named("STATIC", 0), named("CONST", 0), named("REF", 353), named("INT", 0), named("ID", 355)},
+		Rules: rules("member: attr quals type ID", "quals: mods optref", "mods: ostatic oconst", "ostatic: | STATIC", "oconst: | CONST", "optref: | REF", "attr: AT", "type: INT"),
+		NTTag: map[string]string{"member": "val", "quals": "val", "mods": "alt", "ostatic": "val", "oconst": "val", "optref": "val", "attr": "val", "type": "val"}})
+	// a cell with three candidates: a shift and two reductions, the first of which beats the
+	// shift by precedence while the second loses to it
+	add(&Spec{Name: "three_cand", Tags: []string{"conflict-resolved"},
+		Toks:  []Tok{named("ID", 360), {Char: '+', Decl: "prec", Tag: ""}, {Name: "LOW", Decl: "prec"}, {Name: "HIGH", Decl: "prec"}},
+		Prec:  []PrecLine{{"left", []string{"LOW"}}, {"left", []string{"'+'"}}, {"left", []string{"HIGH"}}},
+		Rules: rules("E: E '+' E %prec HIGH | X | ID", "X: E '+' E %prec LOW"),
+		NTTag: allVal("E", "X")})
 	// default-resolved conflicts
 	add(&Spec{Name: "dangling_else", Tags: []string{"conflict-sr"},
 		Toks:  []Tok{lit('i'), lit('e'), litV('x')},
@@ -553,6 +585,57 @@ func Fixed() []*Spec {
 		Rules: rules("S: A | B", "A: 'x'", "B: 'x'"),
 		NTTag: allVal("S", "A", "B")})
 
+	// reduce/reduce between two rules that both carry a precedence (from their terminal):
+	// precedence does not apply, the earlier rule wins and the conflict is reported
+	for _, as := range []string{"left", "right", "nonassoc"} {
+		add(&Spec{Name: "rr_prec_" + as, Tags: []string{"conflict-rr"},
+			Toks:  []Tok{{Char: 'x', Decl: "prec", Tag: ""}, lit('q')},
+			Prec:  []PrecLine{{as, []string{"'x'"}}},
+			Rules: rules("S: A 'q' | B 'q'", "A: 'x'", "B: 'x'")})
+	}
+	// more than 200 parser states (state numbers reach the region of the error / accept codes
+	// of small grammars): 40 six-letter commands over eight letters
+	{
+		letters := []byte{'a', 'b', 'c', 'd', 'e', 'f', 'g', 'h'}
+		var toks []Tok
+		for _, l := range letters {
+			toks = append(toks, lit(l))
+		}
+		toks = append(toks, lit(';'))
+		var alts []string
+		for i := 0; i < 40; i++ {
+			w := []int{i % 8, i / 8, (i*3 + 1) % 8, (i*5 + 2) % 8, (i*7 + 3) % 8, (i + 4) % 8}
+			alt := ""
+			for _, k := range w {
+				alt += fmt.Sprintf(" '%c'", letters[k])
+			}
+			alts = append(alts, alt)
+		}
+		add(&Spec{Name: "big200", Tags: []string{"lalr1", "big"},
+			Toks:  toks,
+			Rules: rules("P: C | P ';' C", "C:"+strings.Join(alts, " |")),
+			NTTag: allVal("P", "C")})
+	}
+	// action bodies with a quote character literal (twice, so that the quotes would pair up),
+	// a string, nested blocks and an escaped quote
+	{
+		sp := &Spec{Name: "action_text", Tags: []string{"lalr1"},
+			Toks:  []Tok{named("NUM", 370), named("CHR", 371), lit('-')},
+			Rules: rules("L: I | L I", "I: NUM | '-' CHR | CHR"),
+			NTTag: allVal("L", "I")}
+		sp.Rules[0].ActExtra = `if $1 == '"' { verifReduce(0) }`
+		sp.Rules[1].ActExtra = `s := "a b"; _ = s`
+		sp.Rules[2].ActExtra = `{ { _ = 0 } }`
+		sp.Rules[3].ActExtra = `if $2 == '"' { verifReduce(0) }`
+		sp.Rules[4].ActExtra = `c := '\''; _ = c`
+		add(sp)
+	}
+	// tokens named like directives (left, right, prec): plain identifiers after a directive word
+	add(&Spec{Name: "directive_names", Tags: []string{"conflict-resolved"},
+		Toks:  []Tok{named("NUM", 380), {Name: "left"}, {Name: "prec", Num: 382}, {Name: "right", Decl: "prec"}},
+		Prec:  []PrecLine{{"left", []string{"right"}}},
+		Rules: rules("S: S left NUM | S right NUM | S prec NUM | NUM"),
+		NTTag: allVal("S")})
 	// names that differ only in case; automatic token numbers
 	add(&Spec{Name: "case_names", Tags: []string{"lalr1"},
 		Toks:  []Tok{named("NUM", 0), named("List", 0), lit(',')},
@@ -1028,6 +1111,13 @@ func RandomRich(seed int64, n int) []*Spec {
 		}
 		if dup {
 			continue
+		}
+		// one grammar in three has the alternatives of a nonterminal in two separate groups
+		// (yacc allows a left-hand side to come back later in the file)
+		if rng2 := rand.New(rand.NewSource(seed*31 + int64(tries))); rng2.Intn(3) == 0 && len(s.Rules) > 2 {
+			k := 1 + rng2.Intn(len(s.Rules)-1)
+			moved := s.Rules[k]
+			s.Rules = append(append(s.Rules[:k:k], s.Rules[k+1:]...), moved)
 		}
 		s.Start = "S"
 		s.Finish()
